@@ -20,7 +20,13 @@ import (
 
 type Rng struct{ s uint64 }
 
-func NewRng(seed uint64) *Rng { return &Rng{s: seed*0x9E3779B97F4A7C15 + 0x1234567} }
+// NewRng scrambles the seed through the output mixer so that neighbouring seeds give unrelated streams.
+func NewRng(seed uint64) *Rng {
+	r := &Rng{s: seed ^ 0x5DEECE66D}
+	r.s = r.U64() ^ (seed << 17)
+	r.s = r.U64()
+	return r
+}
 
 func (r *Rng) U64() uint64 {
 	r.s += 0x9E3779B97F4A7C15
@@ -226,9 +232,12 @@ func (c *Cov) Eval(caseKey string, nontrivial bool) {
 func (c *Cov) Fail(f Failure) {
 	c.mu.Lock()
 	defer c.mu.Unlock()
-	if len(c.Failures) < 50 {
+	// keep a few representatives per class so that a frequent class cannot crowd out a rare one
+	class := "failure-class." + f.Kind + "/" + f.Clause + "/" + f.Signature
+	if c.Dist[class] < 4 && len(c.Failures) < 200 {
 		c.Failures = append(c.Failures, f)
 	}
+	c.Dist[class]++
 	c.Dist["failures."+f.Kind]++
 }
 
